@@ -326,8 +326,9 @@ def witness_cases(prop, work, name="witness.cases"):
         for k in load_known():
             if prop in k["properties"] and "expr" in k.get("witness", {}):
                 c = {"e": "lang", "text": cps(k["witness"]["expr"]), "witness_of": k["id"]}
-                if "doc" in k["witness"]:
-                    c["doc"] = to_tagged(k["witness"]["doc"])
+                if "doctext" in k["witness"]:
+                    c["doctext"] = cps(k["witness"]["doctext"])
+                c["doc"] = to_tagged(k["witness"].get("doc"))
                 f.write(json.dumps(c) + "\n")
                 n += 1
     return path, n
@@ -433,6 +434,9 @@ def uncps(a):
 def describe(rec):
     """One-line human description of an observation record for VIOLATION / KNOWN-FINDING lines."""
     parts = []
+    if rec.get("e") == "session":
+        fe = rec.get("failed_event", {})
+        return "session event %s after %d calls: %s" % (fe.get("e"), len(rec.get("history", [])) - 1, json.dumps(fe)[:200])
     for key in ("e", "kind", "fn", "api", "law"):
         if key in rec and isinstance(rec[key], str):
             parts.append("%s=%s" % (key, rec[key]))
